@@ -401,6 +401,17 @@ def cases(draw):
         raw.append((b'$HEX[' + 'ls\u2028x'.encode('utf-8').hex().encode('ascii') + b']').hex())
         raw.append((b'$HEX[' + 'ps\u2029x'.encode('utf-8').hex().encode('ascii') + b']').hex())
         raw.append((b'$HEX[' + 'nel\u0085x'.encode('utf-8').hex().encode('ascii') + b']').hex())
+    if draw(st.booleans()):
+        # the same refusable characters as the training encoding itself spells them (byte 0x85 is U+0085 in the iso-8859 code pages,
+        # C07-r17), as a raw line and as $HEX[]
+        for ch in ('\u0085', '\u2028', '\u2029', '\x1c'):
+            try:
+                b = ('pa' + ch + 'ss12').encode('utf-8' if enc == 'utf-8-sig' else enc)
+            except (UnicodeError, LookupError):
+                continue
+            raw.append((b'$HEX[' + b.hex().encode('ascii') + b']').hex())
+            if ch == '\u0085':
+                raw.append(b.hex())
     return {'entries': entries, 'encoding': enc, 'raw_lines': raw, 'coverage': draw(st.sampled_from([0.6, 0.3, 1, 0])),
             'ngram': draw(st.sampled_from([2, 3, 4])), 'alphabet_size': draw(st.sampled_from([100, 30, 10])), 'previous_training': draw(st.integers(0, 2)) == 0,
             'file_style': draw(S.file_styles()) if draw(st.integers(0, 2)) == 0 else None}
